@@ -85,6 +85,7 @@ def main(argv=None):
         from contracts import bounded_rds  # noqa: F401
         from contracts import finite_host  # noqa: F401
         from contracts import bounded  # noqa: F401
+        from contracts import finite_pairing  # noqa: F401
     except Exception:
         traceback.print_exc()
         print(f"CHECKER-ERROR property={a.prop}: contracts could not be loaded")
